@@ -534,6 +534,53 @@ Fixpoint pct_decode (s : str) : option str :=
     else match pct_decode r with Some d => Some (c :: d) | None => None end
   end.
 
+(** [pct_decode] above is the SPECIFICATION of unescaping (RFC 2396 2.4.2: each escape is decoded exactly once,
+    in a single left-to-right pass; what a decoded octet happens to be never matters).  What follows is the
+    MODEL of the loop in XMLURL::makeNewStream:
+      percentIndex = indexOf(realPath, '%', 0);
+      while (percentIndex != -1) { check two hex digits follow; realPath[percentIndex] = value; shift the tail left by
+        two; percentIndex = (percentIndex + 1 < end) ? indexOf(realPath, '%', percentIndex + 1) : -1; }
+    The state (realPath, position the next search starts at) is kept as the pair
+    ([done] = realPath before that position, [rest] = realPath from that position on). *)
+Fixpoint split_pct (s : str) : str * option str :=      (* text before the first '%', text after it *)
+  match s with
+  | [] => ([], None)
+  | c :: r => if c =? cPercent then ([], Some r)
+              else let (a, t) := split_pct r in (c :: a, t)
+  end.
+
+Fixpoint unesc_loop (fuel : nat) (done rest : str) : option str :=
+  match fuel with
+  | O => None
+  | S f =>
+    match split_pct rest with
+    | (a, None) => Some (done ++ a)                                   (* indexOf returned -1 *)
+    | (a, Some (h1 :: h2 :: r)) =>
+      if is_hex h1 && is_hex h2
+      then unesc_loop f (done ++ a ++ [16 * hex_val h1 + hex_val h2]) r   (* search resumes AFTER the decoded char *)
+      else None                                                       (* MalformedURLException *)
+    | (a, Some _) => None                                             (* percentIndex + 2 >= end *)
+    end
+  end.
+Definition unescape_once (s : str) : option str := unesc_loop (S (length s)) [] s.
+
+(** the defective variant (search restarts ON the decoded character): "%25" followed by two hex digits is
+    decoded twice.  Only used for the refutation example. *)
+Fixpoint unesc_loop_restart (fuel : nat) (done rest : str) : option str :=
+  match fuel with
+  | O => None
+  | S f =>
+    match split_pct rest with
+    | (a, None) => Some (done ++ a)
+    | (a, Some (h1 :: h2 :: r)) =>
+      if is_hex h1 && is_hex h2
+      then unesc_loop_restart f (done ++ a) ((16 * hex_val h1 + hex_val h2) :: r)
+      else None
+    | (a, Some _) => None
+    end
+  end.
+Definition unescape_restart (s : str) : option str := unesc_loop_restart (S (length s)) [] s.
+
 Definition localhost : str := [108; 111; 99; 97; 108; 104; 111; 115; 116].
 
 (** does XMLURL::makeNewStream use the local file system?  then Some path-before-decoding *)
@@ -550,12 +597,12 @@ Definition url_local_path (u : url) : option str :=
 
 Definition url_open (u : url) : target :=
   match url_local_path u with
-  | Some p => match pct_decode p with Some d => TFile d | None => TFile p end
+  | Some p => match unescape_once p with Some d => TFile d | None => TFile p end
   | None => TNet (url_text u)
   end.
 Definition url_rec_bad_escape (u : url) : bool :=
   match url_local_path u with
-  | Some p => negb (opt_is_some (pct_decode p))
+  | Some p => negb (opt_is_some (unescape_once p))
   | None => false
   end.
 
@@ -563,7 +610,7 @@ Definition url_rec_bad_escape (u : url) : bool :=
     localhost); None when it names a host, is not a file URL, or has a malformed escape *)
 Definition file_url_path (u : str) : option str :=
   match xmlurl_parse u with
-  | Some r => match url_local_path r with Some p => pct_decode p | None => None end
+  | Some r => match url_local_path r with Some p => unescape_once p | None => None end
   | None => None
   end.
 (** on URL text: XMLURL::makeNewStream throws MalformedURLException (malformed %-escape in a local file URL) *)
